@@ -99,6 +99,22 @@ def _as_expr(stmts: list):
     s = stmts[0]
     if isinstance(s, ast.Return):
         return s.value if s.value is not None else ast.Constant(value=None)
+    if isinstance(s, ast.Expr) and isinstance(s.value, ast.Constant):
+        return _as_expr(stmts[1:])      # docstring
+    if (isinstance(s, ast.Assign) and len(s.targets) == 1 and isinstance(s.targets[0], ast.Name)) or (
+            isinstance(s, ast.AnnAssign) and isinstance(s.target, ast.Name) and s.value is not None):
+        # `flag = <expr>` used by the following returns: read as the expression itself (single binding, no later store)
+        name = s.targets[0].id if isinstance(s, ast.Assign) else s.target.id
+        rest = stmts[1:]
+        if any(isinstance(n, ast.Name) and n.id == name and isinstance(n.ctx, (ast.Store, ast.Del)) for st in rest for n in ast.walk(st)):
+            return None
+        if any(isinstance(n, (ast.NamedExpr, ast.Yield, ast.YieldFrom, ast.Await)) for n in ast.walk(s.value)):
+            return None
+        loads = sum(1 for st in rest for n in ast.walk(st) if isinstance(n, ast.Name) and n.id == name and isinstance(n.ctx, ast.Load))
+        if loads > 1 and any(isinstance(n, ast.Call) for n in ast.walk(s.value)):
+            return None                 # the expression would be evaluated more than once
+        sub = _Subst({name: s.value}, {})
+        return _as_expr([sub.visit(copy.deepcopy(st)) for st in rest])
     if isinstance(s, ast.If):
         rest = stmts[1:]
         a = _as_expr(s.body + ([] if _always_returns(s.body) else rest))
